@@ -262,6 +262,16 @@ class Rec:
         self.inp.send_text(text)
         self.snap([L_WRITE, S(text)])
 
+    def write_bytes(self, data):
+        """bytes that may end inside a multi-byte character: the model's pipe holds code points, so the
+        label carries the characters completed by this chunk (the reader's incremental decoder keeps
+        the rest, exactly like this one)"""
+        import codecs
+        if not hasattr(self, "_dec"):
+            self._dec = codecs.getincrementaldecoder("utf-8")()
+        self.inp.send_bytes(bytes(data))
+        self.snap([L_WRITE, S(self._dec.decode(bytes(data)))])
+
     def close(self):
         self.inp.close()
         self.snap([L_CLOSE])
@@ -344,6 +354,9 @@ async def _run_async(rec, ops, maxp):
                 await _pump()
             app.ttimeoutlen = 1000
             app.timeoutlen = None
+        elif kind == "wb":
+            rec.write_bytes(op[1])
+            await _pump()
         elif kind == "start":
             if task is None or task.done():
                 if len(rec.results) >= maxp:
@@ -850,6 +863,33 @@ def gen_scenarios(chk):
             sc = mk_async(rng, toks, data, rng.randint(0, 1), rng.choice([1, 2, 5, 40]), n)
         sc["extra"] = 1
         add("exit-from-retry-scan", sc)
+    # non-ASCII text with chunk boundaries INSIDE multi-byte UTF-8 characters (PosixStdinReader's
+    # incremental decoder has to carry the partial character over to the next read)
+    nu8 = 150 if thorough else 16
+    for _ in range(nu8):
+        toks = []
+        for _ in range(rng.randint(2, 3)):
+            for _ in range(rng.randint(1, 6)):
+                r = rng.random()
+                if r < 0.6:
+                    toks.append(("c", rng.choice("é界😀ïa 日ß")))
+                else:
+                    toks.append((rng.choice(["left", "right", "home", "end", "bs", "del", "bword", "fword"]), rng.randint(0, 1)))
+            toks.append((rng.choice(["enter", "lf"]), 0))
+        raw = bytes_of(toks).encode("utf-8")
+        # cut points: every position inside a multi-byte character with probability 1/2, others 1/6
+        cuts = [i for i in range(1, len(raw)) if rng.random() < (0.5 if (raw[i] & 0xC0) == 0x80 else 0.16)]
+        chunks = [raw[a:b] for a, b in zip([0] + cuts, cuts + [len(raw)])]
+        n = len(expected_results(toks))
+        pre = rng.choice([0, 0, 1, len(chunks)])
+        ops = []
+        for i, c in enumerate(chunks):
+            if i >= pre:
+                ops.append(["start"])
+            ops.append(["wb", list(c)])
+        ops.append(["close"])
+        ops += [["start"], ["wait"]] * (n + 1)
+        add("utf8-split-inside-characters", {"rcpr": 0, "mode": "async", "ops": ops, "tokens": [list(t) for t in toks], "maxp": n})
     # reports cut into a key's own byte sequence: not something a terminal does; reported separately
     nmid = 200 if thorough else 20
     for _ in range(nmid):
@@ -1054,6 +1094,9 @@ def all_bytes(sc):
             out.append(op[1])
         elif op[0] == "thread":
             out.append("".join(op[1]))
+    raw = b"".join(bytes(op[1]) for op in sc["ops"] if op[0] == "wb")
+    if raw:
+        out.append(raw.decode("utf-8", "replace"))
     return "".join(out)
 
 
